@@ -222,11 +222,42 @@ func (wk *worker) run(fn *ssa.Function) (err error) {
 			}
 		}
 	}
+	// Package-level variables of the other (non-standard-library) packages are not
+	// re-initialised (their init is expensive); those that are plain data - structs and arrays
+	// of scalars such as the decimal library's Context128 - are snapshotted once and restored
+	// before every path, so that a write to such a variable neither leaks into later paths
+	// nor goes unnoticed because an earlier path already made it.
+	flat := map[*value]value{}
+	for _, pk := range wk.p.Prog.AllPackages() {
+		path := pk.Pkg.Path()
+		if isStdlibPath(path) {
+			continue
+		}
+		skip := false
+		for _, r := range reinit {
+			if r == pk {
+				skip = true
+			}
+		}
+		if skip {
+			continue
+		}
+		for _, m := range pk.Members {
+			if g, ok := m.(*ssa.Global); ok && isFlatType(mustDeref(g.Type())) {
+				if addr := wk.i.globals[g]; addr != nil {
+					flat[addr] = copyFlat(*addr)
+				}
+			}
+		}
+	}
 	first := true
 	for {
 		prefix, ok := wk.ex.pop()
 		if !ok {
 			return nil
+		}
+		for addr, v := range flat {
+			*addr = copyFlat(v)
 		}
 		if !first || true {
 			for _, pk := range reinit {
@@ -467,4 +498,48 @@ func (i *interpreter) panicWhere() string {
 		parts = append(parts, st[k].String())
 	}
 	return strings.Join(parts, " < ")
+}
+
+func isStdlibPath(path string) bool {
+	first := path
+	if i := strings.IndexByte(path, '/'); i >= 0 {
+		first = path[:i]
+	}
+	return !strings.Contains(first, ".")
+}
+
+// isFlatType: scalars, and structs / arrays of flat types (no pointers, slices, maps, channels, functions, interfaces).
+func isFlatType(t types.Type) bool {
+	switch u := t.Underlying().(type) {
+	case *types.Basic:
+		return u.Kind() != types.UnsafePointer
+	case *types.Struct:
+		for k := 0; k < u.NumFields(); k++ {
+			if !isFlatType(u.Field(k).Type()) {
+				return false
+			}
+		}
+		return true
+	case *types.Array:
+		return u.Len() <= 64 && isFlatType(u.Elem())
+	}
+	return false
+}
+
+func copyFlat(v value) value {
+	switch x := v.(type) {
+	case structure:
+		out := make(structure, len(x))
+		for k := range x {
+			out[k] = copyFlat(x[k])
+		}
+		return out
+	case array:
+		out := make(array, len(x))
+		for k := range x {
+			out[k] = copyFlat(x[k])
+		}
+		return out
+	}
+	return v
 }
